@@ -324,6 +324,37 @@ func C08(p *core.Program, r *core.Report) {
 
 	checkPartFileLocking(p, r, mutex)
 	checkWriteErrorsNotDropped(p, r)
+	// Update is the write half of a read-modify-write its callers perform without the store mutex (QueryId ...
+	// Update): the parts of a record are Push's business, so Update keeps those of the record as it is NOW
+	upd := p.Func(storagePkg, "Store", "Update")
+	lsu := core.ComputeLockSets(upd)
+	var getTarget ssa.Value
+	var getCall ssa.CallInstruction
+	for _, gc := range core.CallsTo(upd, bhPkg+".Store.Get") {
+		getCall = gc
+		getTarget = core.Strip(core.Arg(gc, 1))
+	}
+	for _, field := range []string{"Parts", "Fragmented"} {
+		okF := false
+		for _, uc := range core.CallsTo(upd, bhPkg+".Store.Update") {
+			core.EachInstr(upd, func(in ssa.Instruction) {
+				st, ok := in.(*ssa.Store)
+				if !ok || !core.IsField(st.Addr, storagePkg, "BundleItem", field) || getTarget == nil {
+					return
+				}
+				fromCurrent := core.DependsOn(st.Val, func(v ssa.Value) bool {
+					fa, ok := v.(*ssa.FieldAddr)
+					return ok && fa.X == getTarget
+				})
+				_, heldGet := lsu.Held(getCall.(ssa.Instruction), "pkg/storage.Store.mutex", true)
+				_, heldUpd := lsu.Held(uc.(ssa.Instruction), "pkg/storage.Store.mutex", true)
+				if fromCurrent && heldGet && heldUpd && core.MustPassBefore(uc.(ssa.Instruction), func(i ssa.Instruction) bool { return i == ssa.Instruction(st) }) {
+					okF = true
+				}
+			})
+		}
+		r.Check(okF, "atomic-rmw/"+fname(upd)+"/keeps-current-"+field, "Store.Update writes the caller's meta data over the record but takes "+field+" from the record as it is in the store at that moment (read under the store mutex): a fragment or the whole bundle pushed between the caller's QueryId and its Update is not undone", p.Pos(upd.Pos()), "", "the caller's stale copy of "+field+" is written back: a Push acknowledged in between loses its part (or the record points to files that Push has removed)")
+	}
 	r.Analysed["error_returning_functions_checked"] = checkErrorsNotSwallowedTol(p, r, map[string]bool{
 		"pkg/storage.BundlePart.deleteBundle": true, // best-effort removal of a part file: logged, an orphaned file is harmless
 		"pkg/storage.Store.QueryId":           true, // "not found" is an answer (nothing to delete / insert instead of update)
